@@ -47,3 +47,4 @@ Print Assumptions C04_held.
 Print Assumptions C04_gate.
 Print Assumptions C04_note.
 Print Assumptions C04_velocity.
+Print Assumptions C04_capacity_is_32.
